@@ -8,7 +8,6 @@ import (
 	"lunar/toolkit-core/configuration"
 	contextmanager "lunar/toolkit-core/context-manager"
 	"lunar/toolkit-core/vacuum"
-	"os"
 	"sort"
 	"strings"
 	"sync"
@@ -129,7 +128,7 @@ func (txnPoliciesAccessor *TxnPoliciesAccessor) UpdateRawData(
 	if err != nil {
 		return err
 	}
-	return os.WriteFile(filePath, rawData, 0o644)
+	return configuration.WriteFileAtomic(filePath, rawData, 0o644)
 }
 
 func (txnPoliciesAccessor *TxnPoliciesAccessor) UpdatePoliciesData(
